@@ -175,6 +175,13 @@ Theorem C11_run_src_is_run : forall isdigit int_of fx, O_footnotes fx ->
 Proof. exact run_src_eq. Qed.
 Print Assumptions C11_run_src_is_run.
 
+(* the two renderer methods of base.py that fill the registries, regenerated from the source as well *)
+Theorem C11_render_src_is_model : forall isdigit g target body,
+  render_footnote_ref_src isdigit g target = render_footnote_ref isdigit g target /\
+  render_footnote_reference_src isdigit g target body = render_footnote_reference isdigit g target body.
+Proof. exact (fun isdigit g target body => conj (render_footnote_ref_src_eq isdigit g target) (render_footnote_reference_src_eq isdigit g target body)). Qed.
+Print Assumptions C11_render_src_is_model.
+
 Theorem C11_auto_order_partial_src : forall isdigit int_of fx, O_footnotes fx ->
   forall ft d r, run_src isdigit int_of fx true ft d = Ok r ->
   forall fa fb ka kb i j,
